@@ -1685,3 +1685,53 @@ def c07n(F, R):
             x = x.get("else")
     if n == 0:
         R.bad("shape", "UNEXTRACTABLE: no decoder loop that steps over newline tokens (the data value list) found", f["sp"])
+
+
+@rule("C07", "C07.o.a-skipped-region-ends-only-at-its-terminator", floor=1)
+def c07o(F, R):
+    """the loop that discards a macro body leaves only at the closing directive or at the end of the input: a lexical error inside the discarded text (a `%parameter`) must not end the skip, or the rest of the body is parsed as code - one bad line changes how the following lines are read"""
+    p = F.method(PNODE, "try_from", trait_ref=r"TryFrom<&mut core::iter::adapters::peekable::Peekable")
+    f = F.fn(p)
+    body = f["hir"]["value"]
+    DT = "riscv_analysis::parser::directive::DirectiveToken"
+    loops = []
+    for lp in walk(body, pats=False):
+        if lp.get("k") != "Loop":
+            continue
+        stops = [b for b in walk(lp["body"], pats=False) if b.get("k") == "Binary" and b["op"] == "Eq" and any(peel(s_).get("k") == "Path" and (peel(s_).get("res") or "").startswith(DT + "::") for s_ in (b["a"], b["b"]))]
+        if stops:
+            loops.append(lp)
+    if not loops:
+        R.bad("shape", "UNEXTRACTABLE: no loop that discards tokens up to a closing directive found", f["sp"])
+        return
+    pm = parent_map(body)
+    for n_, lp in enumerate(loops):
+        reads = [m for m in walk(lp["body"], pats=False) if m.get("k") == "MethodCall" and m["name"] in ("get_any", "peek_any")]
+        probs = []
+        for m in reads:
+            x = m
+            for _ in range(4):
+                x = pm.get(id(x))
+                if x is None:
+                    break
+                if x.get("k") == "Match" and x.get("src") == "TryDesugar":
+                    probs.append((m, "`?` on the read: any lexical error leaves the loop"))
+                    break
+                if x.get("k") == "Match" and x.get("src") != "TryDesugar":
+                    for a in x["arms"]:
+                        vs = [v for k_, v in pat_variants(a["pat"]) if k_ == "path" and v]
+                        is_err = any(v.endswith("Result::Err") for v in vs) or not vs
+                        names_eof = any(v.endswith("UnexpectedEOF") for v in vs) or any((y.get("res") or "").endswith("UnexpectedEOF") for y in walk(a["pat"]))
+                        is_ok = any(v.endswith("Result::Ok") for v in vs)
+                        if is_ok or names_eof:
+                            continue
+                        # any other arm (Err(_), a binding that is then `?`-ed): must not leave the loop
+                        leaves = [y for y in walk(a["body"], pats=False) if y.get("k") in ("Break", "Ret")]
+                        if leaves:
+                            probs.append((a, "an error other than the end of the input leaves the loop"))
+                    break
+        key = f"skip-loop#{n_ + 1}"
+        if probs:
+            R.bad(key, f"the loop that discards a macro body can be left before its closing directive: {probs[0][1]} - after `.macro push %r` the `%` is not a token, the skip stops, and the body of the macro is linted as if it were code", loc(probs[0][0]))
+        else:
+            R.ok(key, detail="left only at the closing directive or at the end of the input", where=loc(lp))
